@@ -23,3 +23,8 @@ package tracing
 //@   assumed
 //@   modifies nothing
 //@   emits Call(code("ISenderHandle.Done"), this)
+
+//@ func (*tracer).run
+//@   prop C09 C07 C17
+//@   loop 2 range t.subscribers
+//@     invariant pos == -1 || (0 <= pos && pos < len(t.subscribers))
